@@ -27,7 +27,7 @@ Notation plookup := (plookup path digest path_eqb).
 Notation filter_pending := (filter_pending path content digest path_eqb digest_eqb sha empty_digest).
 Notation all_changes_opts := (all_changes_opts path content digest path_eqb content_eqb digest_eqb sha empty_digest).
 Notation all_changes := (all_changes path content digest path_eqb content_eqb digest_eqb sha empty_digest).
-Notation update_pending := (update_pending path content digest path_eqb content_eqb digest_eqb sha empty_digest).
+Notation update_p_with := (update_p_with path content digest path_eqb content_eqb digest_eqb sha empty_digest).
 Notation update_p := (update_p path content digest path_eqb content_eqb digest_eqb sha empty_digest).
 Notation diff_changes := (diff_changes path content content_eqb).
 
@@ -124,16 +124,35 @@ Qed.
 
 (* C07, first half: immediately after `checkpoint update --pending` nothing is changed,
    whatever the repository state and whatever pending map was stored before *)
-Theorem C07_fixpoint r old :
-  let '(c, pn) := update_p r old in all_changes r c pn = [].
+Theorem C07_fixpoint_with ks r old :
+  let '(c, pn) := update_p_with ks r old in all_changes r c pn = [].
 Proof.
-  unfold Git.update_p, Git.update_pending, Git.all_changes, Git.all_changes_opts, Git.diff_changes.
+  unfold Git.update_p_with, Git.update_pending_with, Git.all_changes, Git.all_changes_opts, Git.diff_changes.
   destruct (others r ++ diff1 r (head r)) as [|p0 l] eqn:E.
-  - simpl. destruct old as [[|x m]|]; reflexivity.
+  - simpl. destruct ks; [destruct old as [[|x m]|]; reflexivity | reflexivity].
   - cbn [Git.filter_pending map]. apply filter_none. intros p Hp.
     pose proof (plookup_map r (p0 :: l) p Hp) as Hl. cbn [map] in Hl. rewrite Hl.
     assert (H : digest_eqb (checksum r p) (checksum r p) = true) by (apply digest_eqb_eq; reflexivity).
     rewrite H. reflexivity.
+Qed.
+Theorem C07_fixpoint r old : let '(c, pn) := update_p r old in all_changes r c pn = [].
+Proof. exact (C07_fixpoint_with false r old). Qed.
+
+(* what update --pending records is exactly the current checksum of every path it lists *)
+Lemma plookup_map_inv r l p d : plookup (map (fun q => (q, checksum r q)) l) p = Some d -> d = checksum r p.
+Proof.
+  induction l as [|q l IH]; simpl; [discriminate|].
+  destruct (path_eqb q p) eqn:E.
+  - apply path_eqb_eq in E. subst. intros H. inversion H. reflexivity.
+  - exact IH.
+Qed.
+Theorem update_p_records_current r old m p d :
+  snd (update_p r old) = Some m -> plookup m p = Some d -> d = checksum r p.
+Proof.
+  unfold Git.update_p, Git.update_p_with, Git.update_pending_with. cbn [snd].
+  destruct (Git.all_changes_opts path content digest path_eqb content_eqb digest_eqb sha empty_digest r None None None None) as [|p0 l] eqn:E.
+  - intros H. discriminate H.
+  - intros H. injection H as H. subst m. apply (plookup_map_inv r (p0 :: l)).
 Qed.
 
 (* C07, second half: a path brought into a state that differs from the checkpoint commit and from every
